@@ -1,16 +1,40 @@
 (** The mutators have their RFC 7047 5.1 effect; immutable columns. *)
 From LOV Require Export Upd.Mutate Upd.Merge.
 
-Lemma mutate_int_add x y : mutate_atom (AInt x) MAdd (AInt y) = MOk (VAtom (AInt (x + y))).
-Proof. reflexivity. Qed.
-Lemma mutate_int_sub x y : mutate_atom (AInt x) MSub (AInt y) = MOk (VAtom (AInt (x - y))).
-Proof. reflexivity. Qed.
-Lemma mutate_int_mul x y : mutate_atom (AInt x) MMul (AInt y) = MOk (VAtom (AInt (x * y))).
-Proof. reflexivity. Qed.
-Lemma mutate_int_div x y : y <> 0%Z -> mutate_atom (AInt x) MDiv (AInt y) = MOk (VAtom (AInt (Z.quot x y))).
-Proof. intros H. simpl. rewrite (proj2 (Z.eqb_neq y 0) H). reflexivity. Qed.
+Lemma mutate_int_add x y : in_int64 (x + y) = true -> mutate_atom (AInt x) MAdd (AInt y) = MOk (VAtom (AInt (x + y))).
+Proof. intros H. cbn. unfold int_res. rewrite H. reflexivity. Qed.
+Lemma mutate_int_sub x y : in_int64 (x - y) = true -> mutate_atom (AInt x) MSub (AInt y) = MOk (VAtom (AInt (x - y))).
+Proof. intros H. cbn. unfold int_res. rewrite H. reflexivity. Qed.
+Lemma mutate_int_mul x y : in_int64 (x * y) = true -> mutate_atom (AInt x) MMul (AInt y) = MOk (VAtom (AInt (x * y))).
+Proof. intros H. cbn. unfold int_res. rewrite H. reflexivity. Qed.
+Lemma mutate_int_div x y : y <> 0%Z -> in_int64 (Z.quot x y) = true ->
+  mutate_atom (AInt x) MDiv (AInt y) = MOk (VAtom (AInt (Z.quot x y))).
+Proof. intros H Hr. cbn. rewrite (proj2 (Z.eqb_neq y 0) H). unfold int_res. rewrite Hr. reflexivity. Qed.
 Lemma mutate_int_mod x y : y <> 0%Z -> mutate_atom (AInt x) MMod (AInt y) = MOk (VAtom (AInt (Z.rem x y))).
 Proof. intros H. simpl. rewrite (proj2 (Z.eqb_neq y 0) H). reflexivity. Qed.
+(** a result outside int64 is a range error for every arithmetic mutator, and the only way to get one *)
+Lemma mutate_int_range x y m :
+  mutate_atom (AInt x) m (AInt y) = MRange <->
+  match m with
+  | MAdd => in_int64 (x + y) = false
+  | MSub => in_int64 (x - y) = false
+  | MMul => in_int64 (x * y) = false
+  | MDiv => y <> 0%Z /\ in_int64 (Z.quot x y) = false
+  | _ => False
+  end.
+Proof.
+  destruct m; cbn; unfold int_res; try (split; [discriminate|tauto]).
+  - destruct (in_int64 (x + y)); split; congruence.
+  - destruct (in_int64 (x - y)); split; congruence.
+  - destruct (in_int64 (x * y)); split; congruence.
+  - destruct (Z.eqb_spec y 0) as [->|Hn]; [split; [discriminate|intros [H _]; congruence]|].
+    destruct (in_int64 (Z.quot x y)); split; [discriminate|intros [_ ?]; discriminate|intros _; split; [exact Hn|reflexivity]|reflexivity].
+  - destruct (Z.eqb y 0); split; try discriminate; tauto.
+Qed.
+(** the one quotient of two int64 values that is not one *)
+Lemma quot_min_by_minus_one :
+  mutate_atom (AInt (-9223372036854775808)) MDiv (AInt (-1)) = MRange.
+Proof. reflexivity. Qed.
 Lemma mutate_int_div0 x : mutate_atom (AInt x) MDiv (AInt 0) = MDomain.
 Proof. reflexivity. Qed.
 Lemma mutate_int_mod0 x : mutate_atom (AInt x) MMod (AInt 0) = MDomain.
@@ -113,7 +137,7 @@ Proof.
   destruct mu as [[c m] arg]. unfold row_mutate1. intros H HC Himm.
   destruct (find_col T c) as [C'|] eqn:HC'; [|injection H as <-; reflexivity].
   destruct (r !! c) as [cur|] eqn:Hc; [|injection H as <-; reflexivity].
-  destruct (mutate1 (c_ty C') (c_mutable C') cur m arg) as [v| |] eqn:Hm; simpl in H; try discriminate.
+  destruct (mutate1 (c_ty C') (c_mutable C') cur m arg) as [v| | |] eqn:Hm; simpl in H; try discriminate.
   injection H as <-. destruct (decide (c = c_name C)) as [->|Hne].
   - rewrite HC in HC'. injection HC' as <-. rewrite Himm in Hm. discriminate.
   - rewrite lookup_insert_ne by exact Hne. reflexivity.
